@@ -15,7 +15,7 @@ PStart  == IsEvent("ProbeStart") /\ ProbeStartOk(R.i, R.usable, R.t, st) /\ st' 
 PTry    == IsEvent("IniEnd") /\ (R.probe => ProbeTryOk(R.i, R.ok, R.code, R.t, st)) /\ UNCHANGED st
 PEnd    == IsEvent("ProbeEnd") /\ ProbeEndOk(R.i, R.ok, R.tries, R.t, st) /\ UNCHANGED st
 End     == IsEvent("End") /\ EndOk(R.n_reserved, R.n_exch, R.marker, R.busy_fillers, R.busy_fillers_alive, R.left_idle, R.t, st) /\ UNCHANGED st
-Other   == i <= Len(Rec) /\ Rec[i].ev \in {"Hs", "Step", "StepSkipped", "Mark", "Open", "Close", "DevSess", "Proof"} /\ i' = i + 1 /\ UNCHANGED st
+Other   == i <= Len(Rec) /\ Rec[i].ev \notin {"Reset", "Start", "Garbage", "Cancel", "Win", "ProbeStart", "IniEnd", "ProbeEnd", "End"} /\ i' = i + 1 /\ UNCHANGED st
 Next == Reset \/ Start \/ Garbage \/ Win \/ PStart \/ PTry \/ PEnd \/ End \/ Other
 Spec == Init /\ [][Next]_vars
 TraceAccepted ==
